@@ -82,6 +82,8 @@ def pcKind : LPc PyVal → String
   | .clk => "clk" | .iterFirst => "iter" | .iterNext _ _ _ => "iter" | .del _ => "del"
   | .inCheck => "in" | .move => "move" | .get => "get" | .call => "call" | .store => "store"
   | .len => "len" | .pop => "pop" | .cleanup _ => "iter"
+  | .acq1 => "lock1" | .rel1Hit _ => "lock1" | .rel1Miss => "lock1" | .relErr _ => "lock1"
+  | .acq2 => "lock2" | .rel2 => "lock2"
 
 def runTraceL (maxSize : Nat) (valid : Option Int) (cost : PyVal → Int) :
     LConc PyVal → List SStep → Option (LConc PyVal × List PyVal)
